@@ -5901,12 +5901,39 @@ impl PeerConnectionInner {
         id.to_string()
     }
 
+    /// No SCTP association exists (the connection is closed before DTLS/SCTP came
+    /// up, or its runner has not been polled yet and may be aborted unpolled), so no
+    /// SCTP run loop is certain to announce the end of the channels created so far:
+    /// end them here, or a task parked in `DataChannel::recv()` waiting for
+    /// Open would wait for ever on a connection that is already Closed.
+    fn close_channels_without_association(&self) {
+        use crate::transports::sctp::{DataChannelEvent, DataChannelState};
+        let channels = self.data_channels.lock();
+        for weak_dc in channels.iter() {
+            if let Some(dc) = weak_dc.upgrade() {
+                let old_state = dc
+                    .state
+                    .swap(DataChannelState::Closed as usize, Ordering::SeqCst);
+                if old_state != DataChannelState::Closed as usize {
+                    dc.send_event(DataChannelEvent::Close);
+                    dc.close_channel();
+                }
+            }
+        }
+    }
+
     fn close_with_reason(&self, reason: DisconnectReason) {
         #[cfg(rustrtc_verif)]
         self.vemit_r("close_begin", verif_reason_name(&reason), "");
         if *self.peer_state.borrow() == PeerConnectionState::Closed {
             #[cfg(rustrtc_verif)]
             self.vemit_r("close_noop", "", "");
+            // Closed was reached without this function (the ICE transport was
+            // stopped / closed underneath the connection): channels that never got an
+            // association still have to be ended once the application closes.
+            if self.sctp_transport.lock().is_none() {
+                self.close_channels_without_association();
+            }
             return;
         }
 
@@ -6029,8 +6056,17 @@ impl PeerConnectionInner {
         // Close SCTP transport before closing DTLS/ICE to stop retransmission timers
         #[cfg(rustrtc_verif)]
         self.vprobe("close.pre_sctp");
-        if let Some(sctp) = self.sctp_transport.lock().take() {
+        // `true`: an SCTP run loop has been entered and its cleanup guard will end the
+        // channels when the loop exits.
+        let guarded = if let Some(sctp) = self.sctp_transport.lock().take() {
+            let entered = !sctp.run_loop_never_entered();
             sctp.close();
+            entered
+        } else {
+            false
+        };
+        if !guarded {
+            self.close_channels_without_association();
         }
 
         #[cfg(rustrtc_verif)]
